@@ -61,6 +61,29 @@ impl RecordsBounds {
         Self::new(start, Self::namespace_end(ns))
     }
 
+    /// Restricts these bounds to the records of `ns`.
+    ///
+    /// The records of all namespaces live in one table, so bounds that were built from
+    /// identifiers supplied by a remote peer must not reach into another namespace.
+    pub fn within_namespace(self, ns: &NamespaceId) -> Self {
+        let Self(start, end) = self;
+        let start = match (start, Self::namespace_start(ns)) {
+            (Bound::Included(s) | Bound::Excluded(s), Bound::Included(first)) if s < first => {
+                Bound::Included(first)
+            }
+            (Bound::Unbounded, first) => first,
+            (start, _) => start,
+        };
+        let end = match (end, Self::namespace_end(ns)) {
+            (Bound::Included(e) | Bound::Excluded(e), Bound::Excluded(limit)) if e >= limit => {
+                Bound::Excluded(limit)
+            }
+            (Bound::Unbounded, limit) => limit,
+            (end, _) => end,
+        };
+        Self(start, end)
+    }
+
     pub fn as_ref(&self) -> (Bound<RecordsId<'_>>, Bound<RecordsId<'_>>) {
         fn map(id: &RecordsIdOwned) -> RecordsId<'_> {
             (&id.0, &id.1, &id.2[..])
